@@ -6,13 +6,15 @@
 
 namespace c13
 {
-  enum Op { op_gate = 0, op_sync0, op_sync1, op_sync1_mean, op_from10_dot, op_apply, op_apply_axpy, op_diag, op_lump, op_to1, op_rect_apply, op_rect_to1, op_pcg, op_count };
+  enum Op { op_gate = 0, op_sync0, op_sync1, op_sync1_mean, op_from10_dot, op_apply, op_apply_axpy, op_diag, op_lump, op_to1, op_rect_apply, op_rect_to1, op_multi, op_repeat, op_derived, op_alpha, op_extreme, op_empty, op_splitter, op_pcg, op_count };
   inline const char* op_name(int o)
   {
-    static const char* n[] = {"gate", "sync_0", "sync_1", "sync_1(mean)", "from_1_to_0+dot+norm2", "matrix.apply", "matrix.apply(y,alpha)", "extract_diag", "lump_rows", "convert_to_1", "rect-block(2x3) matrix.apply", "rect-block(2x3) convert_to_1", "pcg-jacobi"};
+    static const char* n[] = {"gate", "sync_0", "sync_1", "sync_1(mean)", "from_1_to_0+dot+norm2", "matrix.apply", "matrix.apply(y,alpha)", "extract_diag", "lump_rows", "convert_to_1", "rect-block(2x3) matrix.apply", "rect-block(2x3) convert_to_1", "tickets-in-flight", "reuse-of-objects", "derived-gates", "apply-alpha-0-1", "extreme-values", "empty-mirrors-pushed", "splitter+muxer", "pcg-jacobi"};
     return n[o];
   }
   static const int pcg_iters = 4;
+  /// operations with several synchronisations: explored with a deviation bound instead of the full product
+  inline bool op_is_multi(int o) { return o == op_multi || o == op_repeat || o == op_derived || o == op_alpha || o == op_extreme || o == op_empty || o == op_pcg; }
 
   // -----------------------------------------------------------------------------------------------
   // the code under test: what one MPI process does
@@ -29,7 +31,16 @@ namespace c13
     Dist::Comm comm = Dist::Comm::world();
     if(comm.rank() != rank || comm.size() != w.cfg.P) { out.note += "Dist::Comm::world() reports a wrong rank/size; "; return; }
     typename W_::GateType gate(comm);
-    for(size_t i = 0; i < R.nb.size(); ++i) gate.push(R.nb[i], R.mirrors[i].clone(LAFEM::CloneMode::Shallow));
+    // neighbour order: ascending rank (as the control layer does); with a scrambled patch numbering the odd ranks push
+    // their neighbours in descending order (legal: every pair of ranks still exchanges exactly one message per sync)
+    const bool rev_nb = (w.cfg.renum != 0) && (rank % 2 == 1);
+    auto fill_gate = [&](auto& g, bool with_empty)
+    {
+      const std::vector<int>& nbs = with_empty ? R.all_nb : R.nb;
+      const std::vector<Mirror>& mrs = with_empty ? R.all_mirrors : R.mirrors;
+      for(size_t k = 0; k < nbs.size(); ++k) { const size_t i = rev_nb ? nbs.size() - 1 - k : k; g.push(nbs[i], mrs[i].clone(LAFEM::CloneMode::Shallow)); }
+    };
+    fill_gate(gate, false);
     gate.compile(Vec(n));
 
     auto mk = [&](auto f) { Vec v(n); double* p = raw(v); for(Index j = 0; j < n; ++j) for(int c = 0; c < bs; ++c) p[size_t(j) * size_t(bs) + size_t(c)] = f(R.p2b[size_t(j)], c); return v; };
@@ -131,7 +142,7 @@ namespace c13
         typedef LAFEM::DenseVectorBlocked<double, Index, 3> Vec3;
         typedef LAFEM::SparseMatrixBCSR<double, Index, 2, 3> MatR;
         Global::Gate<Vec3, Mirror> gate3(comm);
-        for(size_t i = 0; i < R.nb.size(); ++i) gate3.push(R.nb[i], R.mirrors[i].clone(LAFEM::CloneMode::Shallow));
+        fill_gate(gate3, false);
         gate3.compile(Vec3(n));
         Global::Matrix<MatR, Mirror, Mirror> A(&gate, &gate3, R.A0r.clone(LAFEM::CloneMode::Deep));
         if(op == op_rect_apply)
@@ -150,6 +161,172 @@ namespace c13
           const double* v = matval(M1);
           out.mat.assign(v, v + size_t(M1.used_elements()) * 6u);
           if(M1.used_elements() != R.A0r.used_elements()) out.note += "convert_to_1 changed the pattern; ";
+        }
+      }
+      break;
+    case op_multi:
+      {
+        // several tickets in flight at once, completed in an order different from their creation
+        GVec x(&gate, mk(fw)), y(&gate, mk([rank](Index b, int c) { return val_w2(rank, b, c); })), u(&gate, mk(fu)), v(&gate, mk(fv));
+        auto t1 = x.sync_0_async();
+        auto t2 = y.sync_0_async();
+        auto d = u.dot_async(v);
+        auto nn = u.norm2_async();
+        auto mx = u.max_abs_element_async();
+        out.scal.push_back(nn.wait());
+        if(!t2._finished) t2.wait();      // (an empty ticket cannot be waited for: separate finding)
+        out.scal.push_back(mx.wait());
+        out.scal.push_back(d.wait());
+        if(!t1._finished) t1.wait();
+        put(0, x.local()); put(1, y.local()); put(2, u.local()); put(3, v.local());
+      }
+      break;
+    case op_repeat:
+      {
+        // the same gate, vectors, matrix are used again and again; results go into vectors that already hold results
+        GMat A(&gate, &gate, R.A0.clone(LAFEM::CloneMode::Shallow));
+        GVec x(&gate, mk(fw)), u(&gate, mk(fu)), v(&gate, mk(fv)), r(&gate, Vec(n));
+        x.sync_0(); x.sync_0();                    // second sync of an already synchronised vector: count * sum
+        put(0, x.local());
+        out.scal.push_back(u.dot(v)); out.scal.push_back(u.dot(v)); out.scal.push_back(v.dot(u));
+        A.apply(r, u); A.apply(r, v);              // r must be overwritten, not accumulated
+        put(1, r.local());
+        u.sync_1(); u.sync_1();                    // idempotent on a consistent vector
+        put(2, u.local());
+        out.scal.push_back(double(gate.get_num_global_dofs())); out.scal.push_back(double(gate.get_num_global_dofs()));
+      }
+      break;
+    case op_derived:
+      {
+        // (i) gate converted to float / unsigned int
+        typedef typename W_::GateType::template GateTypeByDI<float, unsigned int> GateF;
+        typedef typename GateF::LocalVectorType VecF;
+        GateF gf;
+        gf.convert(gate);
+        {
+          VecF xf(n);
+          float* pf = raw(xf);
+          for(Index j = 0; j < n; ++j) for(int c = 0; c < bs; ++c) pf[size_t(j) * size_t(bs) + size_t(c)] = float(val_w(rank, R.p2b[size_t(j)], c));
+          gf.sync_0(xf);
+          out.vec[0].assign(size_t(n) * size_t(bs), 0.0);
+          for(size_t k = 0; k < out.vec[0].size(); ++k) out.vec[0][k] = double(raw(xf)[k]);
+          const float* ff = raw(gf.get_freqs());
+          out.vec[1].assign(size_t(n) * size_t(bs), 0.0);
+          for(size_t k = 0; k < out.vec[1].size(); ++k) out.vec[1][k] = double(ff[k]);
+          VecF uf(n), vf(n);
+          for(Index j = 0; j < n; ++j) for(int c = 0; c < bs; ++c) { raw(uf)[size_t(j) * size_t(bs) + size_t(c)] = float(val_u(R.p2b[size_t(j)], c)); raw(vf)[size_t(j) * size_t(bs) + size_t(c)] = float(val_v(R.p2b[size_t(j)], c)); }
+          out.scal.push_back(double(gf.dot(uf, vf)));
+        }
+        // (ii) gate over another vector type built from this one's mirrors (convert with a vector template)
+        {
+          typedef LAFEM::DenseVectorBlocked<double, Index, 3> Vec3;
+          Global::Gate<Vec3, Mirror> g3;
+          g3.convert(gate, Vec3(n), LAFEM::CloneMode::Deep);
+          Vec3 x3(n);
+          for(Index j = 0; j < n; ++j) for(int c = 0; c < 3; ++c) raw(x3)[size_t(j) * 3u + size_t(c)] = val_w(rank, R.p2b[size_t(j)], c);
+          g3.sync_0(x3);
+          out.vec[2].assign(raw(x3), raw(x3) + size_t(n) * 3u);
+        }
+        // (iii) move construction and move assignment
+        {
+          typename W_::GateType ga(comm);
+          fill_gate(ga, false);
+          ga.compile(Vec(n));
+          typename W_::GateType gb(std::move(ga));
+          typename W_::GateType gc;
+          gc = std::move(gb);
+          Vec xm = mk(fw);
+          gc.sync_0(xm);
+          put(3, xm);
+        }
+        // (iv) clones of global vector / matrix / filter; the sources must stay intact
+        {
+          GMat A(&gate, &gate, R.A0.clone(LAFEM::CloneMode::Shallow));
+          GMat Ac = A.clone(LAFEM::CloneMode::Weak);
+          GVec u(&gate, mk(fu));
+          GVec uc = u.clone(LAFEM::CloneMode::Deep);
+          GVec r = Ac.create_vector_l();
+          Ac.apply(r, uc);
+          put(4, r.local());
+          uc.format(123.0);
+          const double* pu = raw(u.local());
+          for(Index j = 0; j < n; ++j) for(int c = 0; c < bs; ++c) if(pu[size_t(j) * size_t(bs) + size_t(c)] != val_u(R.p2b[size_t(j)], c)) { out.note += "deep clone of a global vector shares data with its source; "; j = n; break; }
+        }
+        // (v) the source gate after all of that
+        { Vec xs = mk(fw); gate.sync_0(xs); put(5, xs); }
+      }
+      break;
+    case op_alpha:
+      {
+        GMat A(&gate, &gate, R.A0.clone(LAFEM::CloneMode::Shallow));
+        GVec x(&gate, mk(fu)), y(&gate, mk(fv));
+        const double alphas[3] = {0.0, 1.0, -1.0};
+        for(int k = 0; k < 3; ++k) { GVec r(&gate, Vec(n)); r.format(-77.0); A.apply(r, x, y, alphas[k]); put(k, r.local()); }
+      }
+      break;
+    case op_extreme:
+      {
+        const double big = std::ldexp(1.0, 500), tiny = std::ldexp(1.0, -1060), sc = std::ldexp(1.0, 200);
+        GVec a(&gate, mk([&](Index b, int c) { return val_w(rank, b, c) * big; })); a.sync_0(); put(0, a.local());
+        GVec d(&gate, mk([&](Index b, int c) { return val_w(rank, b, c) * tiny; })); d.sync_0(); put(1, d.local());
+        GVec m(&gate, mk([&](Index b, int c) { return -std::fabs(val_w(rank, b, c)) - 0.25; })); m.sync_0(); put(2, m.local());
+        GVec z(&gate, mk([](Index, int) { return 0.0; })); z.sync_0(); put(3, z.local());
+        GVec u(&gate, mk([&](Index b, int c) { return val_u(b, c) * sc; })), v(&gate, mk([&](Index b, int c) { return val_v(b, c) / sc; }));
+        out.scal.push_back(u.dot(v));
+        out.scal.push_back(m.max_abs_element());
+      }
+      break;
+    case op_empty:
+      {
+        // all halo neighbours are pushed, including those whose mirror is empty (zero-length messages)
+        typename W_::GateType ge(comm);
+        fill_gate(ge, true);
+        ge.compile(Vec(n));
+        GVec x(&ge, mk(fw)); x.sync_0(); put(0, x.local());
+        GMat A(&ge, &ge, R.A0.clone(LAFEM::CloneMode::Deep));
+        GVec u(&ge, mk(fu)), r(&ge, Vec(n));
+        A.apply(r, u); put(1, r.local());
+        Mat M1 = A.convert_to_1();
+        const double* pv = matval(M1);
+        out.mat.assign(pv, pv + size_t(M1.used_elements()) * size_t(bs * bs));
+        put(2, ge.get_freqs());
+      }
+      break;
+    case op_splitter:
+      {
+        const int P = w.cfg.P;
+        const Index N = w.B.N;
+        auto base_mirror = [&](int q) { const auto& Q = *w.ranks[size_t(q)]; Mirror m(N, Q.ndofs); for(Index j = 0; j < Q.ndofs; ++j) m.indices()[j] = Q.p2b[size_t(j)]; return m; };
+        // Splitter, root = rank 0: base vector -> patches, type-1 patches -> base vector
+        {
+          Global::Splitter<Vec, Mirror> sp;
+          sp.set_root(&comm, 0, Mirror::make_identity(n));
+          if(rank == 0) { for(int q = 0; q < P; ++q) sp.push_patch(base_mirror(q)); sp.set_base_vector_template(Vec(N)); }
+          sp.compile(Vec(n));
+          Vec vb;
+          if(rank == 0) { vb = Vec(N); for(Index i = 0; i < N; ++i) for(int c = 0; c < bs; ++c) raw(vb)[size_t(i) * size_t(bs) + size_t(c)] = val_u(i, c); }
+          GVec x(&gate, Vec(n)); x.format(-77.0);
+          sp.split(x, vb);
+          put(0, x.local());
+          GVec t1(&gate, mk(fv));
+          Vec jb = sp.join(t1);
+          if(rank == 0) out.vec[1].assign(raw(jb), raw(jb) + size_t(N) * size_t(bs));
+          put(4, t1.local());
+        }
+        // Muxer, parent = last rank: type-0 patches -> parent sum, parent -> patches
+        {
+          const int pr = P - 1;
+          Global::Muxer<Vec, Mirror> mux;
+          mux.set_parent(&comm, pr, Mirror::make_identity(n));
+          if(rank == pr) for(int q = 0; q < P; ++q) mux.push_child(base_mirror(q));
+          mux.compile(Vec(n));
+          Vec src = mk(fw);
+          if(rank == pr) { Vec trg(N); trg.format(-77.0); mux.join(src, trg); out.vec[2].assign(raw(trg), raw(trg) + size_t(N) * size_t(bs)); }
+          else mux.join_send(src);
+          Vec back(n); back.format(-77.0);
+          if(rank == pr) { Vec pb(N); for(Index i = 0; i < N; ++i) for(int c = 0; c < bs; ++c) raw(pb)[size_t(i) * size_t(bs) + size_t(c)] = val_v(i, c); mux.split(back, pb); }
+          else mux.split_recv(back);
+          put(3, back);
         }
       }
       break;
@@ -183,7 +360,7 @@ namespace c13
     verif::Hash h;
     for(auto& o : outs)
     {
-      for(int s = 0; s < 3; ++s) { uint64_t n = o.vec[s].size(); h.pod(n); for(double v : o.vec[s]) { if(v == 0.0) v = 0.0; h.pod(v); } }
+      for(int s = 0; s < RankOut::nvec; ++s) { uint64_t n = o.vec[s].size(); h.pod(n); for(double v : o.vec[s]) { if(v == 0.0) v = 0.0; h.pod(v); } }
       for(double v : o.scal) h.pod(v);
       for(double v : o.mat) h.pod(v);
     }
